@@ -158,6 +158,10 @@ GetOrHead(st, cfg, op, withBody) ==
        IF ~Live(s) THEN Err(e.st, "NoSuchKey")
        ELSE IF "inm" \in DOMAIN op /\ op.inm = Cur(s).body /\ ~Cur(s).mp
          THEN Ok(e.st, [st |-> 304, code |-> "*", nobody |-> TRUE])
+       \* If-Modified-Since: a date after every write ("future") answers 304, one before every write ("past")
+       \* changes nothing (every stored object carries the time of its write)
+       ELSE IF "ims" \in DOMAIN op /\ op.ims = "future"
+         THEN Ok(e.st, [st |-> 304, code |-> "*", nobody |-> TRUE])
        ELSE Ok(e.st, ReadReply(Cur(s), withBody, Enabled(e.st, op.b)))
 
 \* plain DELETE of one key; returns the set of admissible [st, vid, dm]
